@@ -139,6 +139,7 @@ void World::exec_track_op(const Step& s)
         if (!e.out.threw)
         {
             e.fields = {"*"};
+            unanalysed.erase(slot.id);
             probes.hit("update_ok");
             if (check(CK_ROUNDTRIP) && s.fault.kind == FK_NONE)
                 check_roundtrip(snap, *slot.h, "update", false);
@@ -181,11 +182,16 @@ void World::exec_track_op(const Step& s)
                         std::string why;
                         if (f1[i].first == "bpm" && !v2 && !r.bpm && field_rule(F_BPM, r, r2, false, why))
                             continue;
+                        // a snapshot of a state the second party produced (no performance row) is an ordinary input:
+                        // the statement's normalisations (padding to eight slots, ...) apply to it
+                        if (unanalysed.count(slot.id) && field_rule((int)i, r, r2, false, why))
+                            continue;
                         report("C01", "C01|rewrite|" + fam() + "|fixed-point:" + f1[i].first,
                                "writing a track's own snapshot back changed " + f1[i].first + " from " +
                                    f1[i].second + " to " + f2[i].second);
                     }
                 probes.hit("fixed_point_checked");
+                unanalysed.erase(slot.id);
             }
             catch (const std::exception& ex)
             {
